@@ -568,6 +568,9 @@ def run_ref(bindings, **kw):
     opts = dict(CFG.get('options') or {})
     if CFG.get('target_language') is not None:
         opts['target_language'] = CFG['target_language']
+    # with the recording translation function installed (i18n programs) values that are neither text, number nor
+    # __html__ objects show up in its log; with the default function they are simply converted
+    opts['__recording_translate__'] = bool(CFG.get('i18n'))
     helpers = dict(CFG.get('extra_builtins') or {})       # names the template class offers as builtins
     helpers.update({'rec': rrec, 'show': show, 'L': make_L(outs, vals, log), '__translate__': make_T(log)})
     ref = refsem.Ref(DEFAULT_MARKER, STATE['codes'], helpers=helpers, log=log,
